@@ -30,3 +30,14 @@ Proof. exact chain_law. Qed.
 (** the hypotheses are met by a concrete chained run with a re-used operand: (A ∪ B) \ B *)
 Example C11_chain_example : chain_example_check = true.
 Proof. exact chain_example. Qed.
+
+(** "a returned multipolygon is an acceptable operand": the contour stage may hand back a ring
+    that passes through a vertex twice (a hole touching its exterior is threaded into the exterior
+    ring).  The next call reads its operand by the even-odd rule, under which that ring denotes
+    exactly the region of the two rings it is threaded from. *)
+From GB Require Import BoundaryRegion.
+Theorem C11_pinched_result_ring_reads_as_its_parts :
+  forall (e0 : Slab.qpt) (pre : list Slab.qpt) (v : Slab.qpt) (h post : list Slab.qpt) (rs : list Slab.ring) p,
+  Slab.inside_eo ((e0 :: pre ++ v :: h ++ v :: post) :: rs) p
+  = Slab.inside_eo ((e0 :: pre ++ v :: post) :: (v :: h) :: rs) p.
+Proof. exact threaded_ring_same_region. Qed.
